@@ -12,9 +12,9 @@ TRUSTED = "Trusted base: TLC 1.8, numpy/scipy, OpenMDAO's compute_totals assembl
 CHECKS = {
     "C03": (
         "model_checking",
-        "TLC complete state graph of OASLifecycle over the component table extracted from the tree + replay of every emitted history into real Problems (live vs fresh) + TraceLifecycle validation of recorded executions (own histories and the repository's optimisation tests as drivers)",
+        "TLC complete state graph of OASLifecycle (run strategies, guarded refactors, caches, Jacobian stores) over the component table extracted from the tree + replay of emitted histories (depth-bounded, pair-pattern, model counterexamples) into real Problems (live vs fresh) + component-level special-value histories + TraceLifecycle validation of recorded executions (own histories and the repository's optimisation tests as drivers)",
         "OASLifecycle is finite-state over three design points, so TLC explores every reachable abstract state and emits model-level counterexamples; every API-call history up to the depth bound (plus random long ones) is replayed on real aero / aerostructural / multipoint / structural Problems and compared with a freshly built Problem after every step.",
-        "Bounds: 3 design points, histories <= 4 (quick) / 6 + 150 random of length 12 (thorough); tolerances rel 1e-9; model kinds listed in evidence. " + TRUSTED,
+        "Bounds: points p0,p1,p2 (differ in every input), q (one input changed), z (one input exactly zero); histories <= 4 sampled to 450 (quick) / <= 6 + 150 random of length 12 sampled to 2500 (thorough) per model kind, every pair-pattern history set X; run; linearise; set Y; run; linearise, run strategies solve_first / residual_first; every component alone at its model inputs then with one input zeroed (outputs and Jacobians vs fresh); tolerances rel 1e-9 outputs, 1e-8 totals; model kinds listed in evidence. " + TRUSTED,
         "5 C03, 3.3, 4.1, 4.4",
     ),
     "C05": (
@@ -26,16 +26,16 @@ CHECKS = {
     ),
     "C04": (
         "model_checking",
-        "TLC: OASTopology (ghost lattice = mirror image, fold) and OASLaws Halve/Unhalve law algebra; replay of every emitted behaviour and of half/full aerostructural pairs on the real code",
+        "TLC: OASTopology (ghost lattice = mirror image, fold) and OASLaws Halve/Unhalve law algebra composed with Mirror, Reorder, scaling, translation, permutation; replay of every emitted behaviour and of half/full aerostructural pairs on the real code",
         "The ghost/mirror topology is checked exhaustively in the box and the Halve/Unhalve laws are composed with mirror, scaling, translation and permutation to a depth bound; each behaviour is applied to concrete aerodynamic scenarios (totals equal, spanwise fields equal on the modelled half) and tube/wingbox aerostructural half/full pairs with weight relief, fuel, point masses are compared observable by observable (mass, cg, coefficients with wave drag separated, displacements, stresses, loads).",
-        "Bounds: depth 2 (quick) / 3 (thorough), nx<=3, half ny 3..4; constant control points feed identical distributions to both models; KS failure not compared (stresses are). Known findings F3, F4, F11 listed in known_findings.json. " + TRUSTED,
+        "Bounds: depth 2 (quick) / 3 (thorough), nx<=3, half ny 3..4; constant control points feed identical distributions to both models; KS failure not compared (stresses are). Known findings F3, F4, F11, F13 listed in known_findings.json; admissible cruise points only (CL > 0.05). " + TRUSTED,
         "5 C04, 3.5, 3.8",
     ),
     "C06": (
         "model_checking",
-        "TLC: OASLaws exponent algebra (CoefficientsInvariant, DefiningIdentities, Composition) composed to depth; every emitted behaviour replayed on real AeroPoint scenarios, step law checked after every action",
+        "TLC: OASLaws exponent algebra (CoefficientsInvariant, DefiningIdentities, Composition) with ScaleRho/ScaleV/ScaleLen/Translate/Reorder/Reexpress composed to depth; every emitted behaviour replayed on real AeroPoint scenarios (1-3 surfaces, half models with and without sideslip, mixed-side half models, non-zero CL0), step law checked after every action",
         "Scale-rho, scale-v, scale-length and translation actions are composed exhaustively to depth 2/3 over every scenario class (full/half, left/right, ground, rotation, 1-2 surfaces, compressible); TLC proves the type table consistent with L=qSCL, CM=M/(qS MAC), F=rho Gamma v x l; each behaviour is replayed on the real code and every observable compared with the predicted factor; L/D as components of the summed panel forces and area-weighted aircraft coefficients are checked directly.",
-        "Factors 2 and 1/3; translations x,y,z,u (x,z,u with symmetry plane; u with ground plane); tolerance 1e-9. " + TRUSTED,
+        "Factors 2 and 1/3; translations x,y,z,u (x,z,u with symmetry plane; x,z for a half model with sideslip; u with ground plane); Reorder = spanwise node order reversed (circulations and normals change sign); Reexpress = inputs in knots, radians, slug/ft^3, feet, inches, 1/ft, deg/s; tolerance 1e-9. " + TRUSTED,
         "5 C06, 3.8",
     ),
     "C07": (
@@ -47,44 +47,44 @@ CHECKS = {
     ),
     "C08": (
         "model_checking",
-        "TLC: OASTopology image quadrant (multiplier -1) + OASLaws.ImageGround composed with other laws; replay against explicit reflected surfaces in free air; far-field decay; set-up rejection",
+        "TLC: OASTopology image quadrant (multiplier -1) + OASLaws.ImageGround composed with scaling, translation, Mirror, Permute, Reorder, Reexpress; replay against explicit reflected surfaces in free air; far-field decay; set-up rejection",
         "Every behaviour containing ImageGround (depth 3/4) is replayed: the ground-effect model must equal a free-air model containing explicit mirror-image surfaces for every observable of the real surfaces; height sweeps over six decades must converge to free air at >=5x per decade; ground effect without symmetry must raise.",
         "1-2 surfaces, left/right halves, no rotation rates (the image of a rotating aircraft is not a rigid rotation). " + TRUSTED,
         "5 C08, 3.5, 3.8",
     ),
     "C09": (
         "model_checking",
-        "TLC: OASPG exact rotation/exponent algebra over Pythagorean (alpha, beta, Mach) triples + OASLaws.Mach0; every OASPG state replayed: compressible model vs incompressible solver (or the independent interpreter) on rotated+stretched geometry",
+        "TLC: OASPG exact rotation/exponent algebra over Pythagorean (alpha, beta, Mach) triples + OASLaws.Mach0 + OASWiring (flight-condition wiring of the compressible AeroPoint / AerostructPoint per frame); every OASPG state replayed: compressible model vs incompressible solver (or the independent interpreter) on rotated+stretched geometry",
         "The wind-frame rotation is proved orthogonal with the free stream mapped to e_x and the exponent table consistent (normals/tangents, axisymmetry, identity at M=0) for all 144 Pythagorean triples; each state and random (alpha, beta, M) draws are replayed through the real compressible AeroPoint and compared with the incompressible solution on the transformed geometry scaled by the spec's exponents and rotated back; Mach-0 identity behaviours and Mach-grid continuity are checked.",
         "|alpha|,|beta| up to 53 deg in the exact table (15 deg in random draws), M<0.94; rotation rates through the interpreter path. " + TRUSTED,
         "5 C09",
     ),
     "C19": (
         "model_checking",
-        "TLC: OASTopology numbering partition + mux/demux bijection, OASLaws.Permute; replay of permutations, column splits, far-away surfaces, MPhys wrapper groups vs native AeroPoint, mux/demux permutation and Jacobian in fwd and rev",
+        "TLC: OASTopology numbering partition + mux/demux bijection, OASLaws.Permute composed with Mirror/Reorder/scaling (1-3 surfaces, mixed-side half models), OASWiring on the connection table of real AeroPoints; replay of permutations, column splits, far-away surfaces, MPhys wrapper groups vs native AeroPoint, mux/demux permutation and Jacobian in fwd and rev",
         "Panel offsets and (de)multiplexer source indices are proved to be partitions/bijections for every surface list in the box; permutation behaviours are replayed (CM renormalised by the first surface's MAC), a full-span surface is split at every interior column, a surface is moved 10..1e6 chords away, and the MPhys solver/funcs groups fed through the spec's permutation must reproduce the native results; mux/demux total Jacobians must equal the spec's permutation matrix in both modes.",
-        "<=2 surfaces in replays (3 in TLC thorough); MPhys groups wired by hand without the MPI distributor. " + TRUSTED,
+        "<= 3 surfaces in replays; OASWiring for compressible x rotational x ground x user_specified_Sref; MPhys groups wired by hand without the MPI distributor. " + TRUSTED,
         "5 C19, 3.5",
     ),
     "C10": (
         "model_checking",
         "TLC: KBeam exact integer transcription of the beam element (symmetry, rigid-body null space, DOF permutation meaning, orthonormal frame, closed-form cantilever nodal exactness); every state replayed through the real element chain and the real assembled clamped beam; independent 3-D frame on random beams",
         "1008 exact element/cantilever cases are model-checked and each is pushed through LocalStiff, LocalStiffPermuted, Transform, LocalStiffTransformed and through AssembleKGroup+SpatialBeamStates as a half-span (clamp = last node) and full-span (clamp = centre node) beam, whose tip displacement must equal the closed form; random beams are compared with an independently assembled Euler-Bernoulli frame (displacements, equilibrium residual, clamp, linearity, Maxwell-Betti, rotation equivariance for tubes).",
-        "Directions with rational cosines only in TLC (7 directions incl. swept, dihedral, both signs); E,G,A,I,J small integers; random part: ny 2..11, tube and wingbox-like sections, loads ~1e4 N. " + TRUSTED,
+        "Directions with rational cosines only in TLC (7 directions incl. swept, dihedral, both signs); E,G,A,I,J small integers; random part: ny 2..11 incl. even-ny full-span user meshes (root node (ny-1) div 2, KBeam.RootIndex), tube and wingbox-like sections, loads ~1e4 N. " + TRUSTED,
         "5 C10, 3.7",
     ),
     "C11": (
         "model_checking",
         "TLC: KTransfer exact integer transcription (force and moment conservation about two points, zero/translation/rotation identities) over 1340 cases; every state through the real LoadTransfer, MeshPointForces, ComputeNodes, DisplacementTransfer, ComputeTransformationMatrix; random real inputs from first principles",
         "The transfer kernels are linear/bilinear in their inputs, so a basis of unit forces plus dense fields on four mesh classes, five spar locations and seven displacement fields exercises every term; conservation laws are invariants of the transcription and every state is an implementation test (1e-12); random deformed meshes and force fields are checked against sum F and sum M about random points, and rigid-motion identities incl. first-order rotation.",
-        "nx<=3, ny<=4 in the table (nx<=4, ny<=7 random); aerodynamic centre at quarter chord. " + TRUSTED,
+        "nx<=3, ny<=4 in the table (nx<=4, ny<=7 random); aerodynamic centre at quarter chord; rotation magnitudes 1e-2 .. 1e-12 rad in the first-order clause. " + TRUSTED,
         "5 C11, 3.7",
     ),
     "C13": (
         "model_checking",
         "TLC: KGeom exact rational transcription of the nine mesh transformations and their chain with the documented effects as invariants (1152 cases); every exact state through the real GeometryMesh; random real design-variable values against the same effects; constant B-spline distributions",
         "Each design variable alone, on six mesh classes, half and full span, four reference-axis positions: defaults are the identity wherever the dihedral pre-rotation is inert, span sets the extent, sweep/dihedral shear linearly with distance from the root on both sides, taper and chord scale about the reference axis, twist preserves chord length and raises the leading edge, shears translate; the real group must reproduce every exact table entry to 1e-12 and the effects on random meshes/values; equal control points give constant distributions for 1-6 control points (geometry, tube, wingbox groups).",
-        "Meshes with chordwise-constant y; twist as Pythagorean (cos,sin), sweep/dihedral as tan; known finding F7 (default chain not the identity for dihedral + non-flat sections). " + TRUSTED,
+        "Meshes with chordwise-constant y; twist as Pythagorean (cos,sin), sweep/dihedral as tan; known finding F7 (default chain not the identity for dihedral + non-flat sections); defaults clause also on half meshes whose root is off the symmetry plane (no span key). " + TRUSTED,
         "5 C13, 3.7",
     ),
     "C14": (
@@ -96,7 +96,7 @@ CHECKS = {
     ),
     "C15": (
         "model_checking",
-        "TLC: KStress exact rational transcription of tube/wingbox stress recovery on pure states (non-negative, rigid motion adds nothing, quadratic scaling, closed forms) and the KS shift discipline (1286 cases); every state through the real components; random fields and KS bounds up to 1e12 Pa",
+        "TLC: KStress exact rational transcription of tube/wingbox stress recovery on pure states (non-negative, rigid motion adds nothing, quadratic scaling, closed forms), the KS shift discipline and KS history cases (the aggregate depends on the current stresses only) (1308 cases); every state through the real components; random fields and KS bounds up to 1e12 Pa, half of them after another stress state on the same instance",
         "Squared stresses of axial, torsion and constant-curvature states (and combinations with rigid-body motion and scaling) on five element directions equal the closed forms of the element's own section properties; the real VonMisesTube/VonMisesWingbox reproduce every entry; FailureExact = vm/sigma - 1; KS is evaluated for N = 1..400 terms, six magnitude patterns up to 1e12 Pa and four rho values: finite, never below the maximum, at most ln N / rho above it.",
         "Stresses compared squared; Exp/Ln uninterpreted in the spec. " + TRUSTED,
         "5 C15, 3.7",
@@ -110,35 +110,35 @@ CHECKS = {
     ),
     "C17": (
         "model_checking",
-        "TLC: KFunc exact rational transcription of the functionals with their defining identities as invariants (240 cases); every state through the real components; random inputs through TotalPerformance; atmosphere consistency and continuity",
+        "TLC: KFunc exact rational transcription of the functionals with their defining identities as invariants (240 cases); every state through the real components; random inputs through TotalPerformance (both values of internally_connect_fuelburn); OASLaws.Reexpress on aerostructural / structural models (other unit system); atmosphere consistency and continuity",
         "Area-weighted coefficients, L = q S CL, drag build-up, residual = 1 - L/W with W = (W0 + structures + fuel) g n, cg = mass-weighted mean, CM = M/(q S MAC_first), lift normal / drag along the free stream for Pythagorean angles, Breguet through the exponent argument; the real Coeffs, TotalLift, TotalDrag, SumAreas, TotalLiftDrag, Equilibrium, CenterOfGravity, MomentCoefficient, LiftDrag, BreguetRange reproduce the table; the atmosphere group is checked for ideal gas, speed of sound, v = M a, Reynolds number, Sutherland viscosity and continuity on a 50 ft grid.",
         "Atmosphere data carry ~4 digits: consistency to 0.2 % (viscosity 2 %); a dropped digit in the pressure table was found and fixed (aa07cb3). " + TRUSTED,
         "5 C17, 3.7",
     ),
     "C20": (
         "model_checking",
-        "TLC: OASSetup (every malformed variant with <= 2 defects through the staged script; NoSilentAcceptance, LoudRejection, UnknownKeysWarned) and OASTwo (all interleavings of two Problems; Isolation over extracted shared state); every terminal state and interleaving replayed on the real API",
+        "TLC: OASSetup (every malformed variant with <= 2 defects through the staged script; NoSilentAcceptance, LoudRejection, UnknownKeysWarned) and OASTwo (all interleavings of two Problems; Isolation over extracted shared state incl. module-level containers); every terminal state and interleaving replayed on the real API (two pairings, one with iterative linear solvers); multi-section workflow with user-supplied section meshes",
         "All 69 variants of the documented mesh, surface (per model kind) and multi-section dictionaries are stepped through generate_mesh / group constructors / Problem.setup / run_model in the spec and on the real API: a malformed variant must stop with an exception before any number is produced, unknown keys must be warned about; interleavings of the API calls of an aerodynamic and an aerostructural Problem up to depth 4/5 must leave each Problem bit-identical to the same Problem run alone; admissible configurations must give finite outputs, be repeatable between independent Problems and leave every user array unchanged (SHA-1).",
         "Which of several fatal defects is reported first, and whether a warning precedes an error, is not part of the contract (spec is nondeterministic there); any exception class counts as loud. " + TRUSTED,
         "5 C20, 3.2",
     ),
     "C12": (
         "model_checking",
-        "TLC: OASCoupled (dataflow, one feedback per surface, newest-version reads, sweep consistency) + TraceCoupled trace validation of recorded real coupled solves (every component execution, fingerprints of all inputs/outputs) + open-loop re-evaluation, solver/guess/order independence, multipoint isolation, rigid limit",
+        "TLC: OASCoupled (dataflow of the incompressible and the Prandtl-Glauert coupled group, one feedback per surface, newest-version reads, sweep consistency, FramesSeparated) + TraceCoupled trace validation of recorded real coupled solves (every component execution, fingerprints of all inputs/outputs) + OASWiring on the connection table of real AerostructPoints for every option combination + open-loop re-evaluation (incl. compressible with sideslip), solver/guess/order/previous-point independence (NLBGS, Aitken, true-residual NLBGS, Newton), multipoint isolation, rigid limit",
         "The required dataflow of the coupled group is a spec-level table checked for 1-3 surfaces; real coupled solves (NLBGS, NLBGS+Aitken, Newton; 1-2 surfaces; tube/wingbox; weight relief) are recorded by external wrappers and every event is validated against the wires and the sweep order by TLC (a corrupted fingerprint or swapped execution is rejected: binding demonstration run on every check); converged states are re-evaluated open loop with stand-alone instances of the code's own groups; nine nonlinear x linear solver combinations, perturbed initial guesses and returning from another design point give the same outputs and totals; point 0 of a two-point model is bit-identical under changes of point 1 and equal to the single-point model; E,G x 10^k converges to the rigid AeroPoint as 1/E.",
         "Relaxed/Newton-updated feedback values are a named deviation of the trace spec (only forward wires are exact there); non-convergent combinations are inconclusive, not violations. " + TRUSTED,
         "5 C12, 3.4, 4.2",
     ),
     "C01": (
         "exploration",
-        "OASConfig (TLC decides admissibility of configuration x regime records; covering sample) + entry-by-entry comparison of every component's reported sub-Jacobians with numerical differentiation of its own compute (complex step where trustworthy, Richardson FD otherwise), at two points of one live model",
+        "OASConfig (TLC decides admissibility of configuration x regime records; covering sample) + entry-by-entry comparison of every component's reported sub-Jacobians with numerical differentiation of its own compute (complex step where trustworthy, Richardson FD otherwise), at two points of one live model (the second across the wave-drag onset), plus stand-alone components (atmosphere, multi-section, MPhys mux/demux, energy, KS at 0.03-30 x allowable)",
         "A covering sample of admissible records (every field value and eleven field pairs of the spec's space: model kind, symmetry/side, ground plane, area type, reference axis, drag options, laminar class, tube/wingbox, load options, taper=1, zero twist, Mach below/above critical) is built as real models; for all 76 component classes inside them (plus stand-alone atmosphere, monotonic constraint, multi-section, MPhys, energy components) the Jacobian the framework receives through the declared sparsity pattern is compared entry by entry with the derivative of the component's own compute; the second linearisation after moving the live model checks for stale or accumulated non-zeros.",
         "Sampled real inputs (exploration); the reference can never be looser than max(2e-5, 5 x measured FD uncertainty); blocks declared fd/cs by the component are skipped; non-smooth points avoided (CL > 0.05, Mach away from critical, non-zero displacements). Fixed: F2 (Taper at taper=1), F9 (ViscousDrag d/dre at k_lam=1). " + TRUSTED,
         "5 C01, 3.1, 3.6",
     ),
     "C02": (
         "exploration",
-        "OASConfig covering sample + OASAdjoint (TLC: transposed solve or measured symmetry for every implicit component, both modes for matrix-free ones) + totals in fwd/rev with Direct, LinearBlockGS, ScipyKrylov vs each other and vs Richardson FD of the converged analysis along random directions",
+        "OASConfig covering sample + OASAdjoint (TLC: transposed solve or measured symmetry for every implicit component, both modes for matrix-free ones) + totals in fwd/rev with Direct, LinearBlockGS, ScipyKrylov vs each other and vs Richardson FD of the converged analysis along random directions; second design point on the live model vs a freshly built one",
         "Each sampled topology/option record (aero, struct, aerostruct, multipoint; 1-2 surfaces; compressible, ground, viscous/wave, weight relief, fuel, point masses, tube/wingbox) is built in forward and reverse mode with the three linear solvers; all total Jacobians of CL, CD, CM, fuel burn, failure, lift-equals-weight, structural mass w.r.t. every design variable and flight condition must agree pairwise and with the directional derivative of run_model; the symmetry of the assembled stiffness matrix that the FEM's single factorization relies on is measured (6e-17) and fed to the spec.",
         "Iterative solvers are judged converged by the Cauchy criterion (totals after 150 and 300 iterations agree); otherwise the combination is inconclusive (the documentation says they are not guaranteed to find the solution). Wingbox at exactly zero section twist is excluded: the analysis itself has a kink there (arccos). " + TRUSTED,
         "5 C02",
